@@ -61,6 +61,49 @@ FNS = [
  ("CacheMap", "cache.rs","Cache<A,T>::map"),
  ("CacheMapCacheLoad", "cache.rs","<MapCache<A,T,F> as Access<U>>::load"),
  ("CacheAccessLoad", "cache.rs","<Cache<A,T> as Access<T::Target>>::load"),
+ ("RcArcIntoPtr", "ref_cnt.rs", "<Arc<T> as RefCnt>::into_ptr"),
+ ("RcArcAsPtr", "ref_cnt.rs", "<Arc<T> as RefCnt>::as_ptr"),
+ ("RcArcFromPtr", "ref_cnt.rs", "<Arc<T> as RefCnt>::from_ptr"),
+ ("RcRcIntoPtr", "ref_cnt.rs", "<Rc<T> as RefCnt>::into_ptr"),
+ ("RcRcAsPtr", "ref_cnt.rs", "<Rc<T> as RefCnt>::as_ptr"),
+ ("RcRcFromPtr", "ref_cnt.rs", "<Rc<T> as RefCnt>::from_ptr"),
+ ("RcOptIntoPtr", "ref_cnt.rs", "<Option<T> as RefCnt>::into_ptr"),
+ ("RcOptAsPtr", "ref_cnt.rs", "<Option<T> as RefCnt>::as_ptr"),
+ ("RcOptFromPtr", "ref_cnt.rs", "<Option<T> as RefCnt>::from_ptr"),
+ ("WeakAsPtr", "weak.rs", "<Weak<T> as RefCnt>::as_ptr"),
+ ("WeakIntoPtr", "weak.rs", "<Weak<T> as RefCnt>::into_ptr"),
+ ("WeakFromPtr", "weak.rs", "<Weak<T> as RefCnt>::from_ptr"),
+ ("RcWeakAsPtr", "weak.rs", "<RcWeak<T> as RefCnt>::as_ptr"),
+ ("RcWeakIntoPtr", "weak.rs", "<RcWeak<T> as RefCnt>::into_ptr"),
+ ("RcWeakFromPtr", "weak.rs", "<RcWeak<T> as RefCnt>::from_ptr"),
+ ("AsRawRef", "as_raw.rs", "<&'aT as AsRaw<T::Base>>::as_raw"),
+ ("AsRawRefGuard", "as_raw.rs", "<&'aGuard<T> as AsRaw<T::Base>>::as_raw"),
+ ("AsRawGuard", "as_raw.rs", "<Guard<T> as AsRaw<T::Base>>::as_raw"),
+ ("AsRawMutPtr", "as_raw.rs", "<*mutT as AsRaw<T>>::as_raw"),
+ ("AsRawConstPtr", "as_raw.rs", "<*constT as AsRaw<T>>::as_raw"),
+ ("SerdeSerialize", "serde.rs", "<ArcSwapAny<T,S> as Serialize>::serialize"),
+ ("SerdeDeserialize", "serde.rs", "<ArcSwapAny<T,S> as Deserialize<'de>>::deserialize"),
+ ("LibFrom", "lib.rs", "<ArcSwapAny<T,S> as From<T>>::from"),
+ ("LibNew", "lib.rs", "ArcSwapAny<T,S>::new"),
+ ("AccDerefLoad", "access.rs", "<P as Access<T>>::load"),
+ ("AccDyn1Load", "access.rs", "<dynDynAccess<T>+'_ as Access<T>>::load"),
+ ("AccDyn2Load", "access.rs", "<dynDynAccess<T>+'_+Send as Access<T>>::load"),
+ ("AccDyn3Load", "access.rs", "<dynDynAccess<T>+'_+Sync+Send as Access<T>>::load"),
+ ("AccArcSwapLoad", "access.rs", "<ArcSwapAny<T,S> as Access<T>>::load"),
+ ("AccDirectArcDeref", "access.rs", "<DirectDeref<Arc<T>,S> as Deref>::deref"),
+ ("AccDirectArcLoad", "access.rs", "<ArcSwapAny<Arc<T>,S> as Access<T>>::load"),
+ ("AccDirectRcDeref", "access.rs", "<DirectDeref<Rc<T>,S> as Deref>::deref"),
+ ("AccDirectRcLoad", "access.rs", "<ArcSwapAny<Rc<T>,S> as Access<T>>::load"),
+ ("AccDynGuardDeref", "access.rs", "<DynGuard<T> as Deref>::deref"),
+ ("AccDynAccessLoad", "access.rs", "<A as DynAccess<T>>::load"),
+ ("AccConvertLoad", "access.rs", "<AccessConvert<D> as Access<T>>::load"),
+ ("AccMapGuardDeref", "access.rs", "<MapGuard<G,F,T,R> as Deref>::deref"),
+ ("AccMapNew", "access.rs", "Map<A,T,F>::new"),
+ ("AccMapLoad", "access.rs", "<Map<A,T,F> as Access<R>>::load"),
+ ("AccConstantDeref", "access.rs", "<ConstantDeref<T> as Deref>::deref"),
+ ("AccConstantLoad", "access.rs", "<Constant<T> as Access<T>>::load"),
+ ("LibMap", "lib.rs", "ArcSwapAny<T,S>::map"),
+ ("LibGuardDeref", "lib.rs", "<Guard<T,S> as Deref>::deref"),
 ]
 def main():
     q = os.path.join('/tmp', 'gen_tie_query.lean')
